@@ -51,7 +51,7 @@ def sh(cmd, cwd=None, env=None, timeout=None, check=True):
 def build_harness(scratch, race=False, tags="verif"):
     """Builds /verif/harness against /repo's current working tree (hooks on).
     Copies of internal/zex and internal/tinycpm are taken at build time."""
-    hdir = os.path.join(scratch, "harness")
+    hdir = os.path.join(scratch, "harness-race" if race else "harness")
     shutil.copytree(os.path.join(VERIF, "harness"), hdir)
     # go.mod points at REPO
     gm = open(os.path.join(hdir, "go.mod")).read().replace("=> /repo", "=> " + REPO)
